@@ -19,9 +19,9 @@ RUN_ASSUME = ["RUN harness: steps run through a scripted executor registered wit
 RUN_OUTSIDE = ["more than D scheduling delays", "repeatPolicy (except where stated)", "real processes, signals and pipes", "retry interval > 0 is a plain yield (no real time)"]
 
 
-def run_ob(name, entry_q, dq, entry_t=None, dt=None, unwind=64, timeout_q=900, timeout_t=6000, bq=None, bt=None, must=None):
+def run_ob(name, entry_q, dq, entry_t=None, dt=None, unwind=64, timeout_q=900, timeout_t=6000, bq=None, bt=None, must=None, extra=None):
     ob = {"name": name, "pkg": SCHED, "replay": "R1t", "labels_unordered": True,
-          "quick": {"entry": entry_q, "flags": ["-unwind", str(unwind), "-delays", str(dq)] + RUN_STUBS, "timeout_s": timeout_q,
+          "quick": {"entry": entry_q, "flags": ["-unwind", str(unwind), "-delays", str(dq)] + (extra or []) + RUN_STUBS, "timeout_s": timeout_q,
                     "bounds": dict({"D": dq, "unwind": unwind}, **(bq or {})), "sample_paths": 2}}
     if entry_t:
         ob["thorough"] = {"entry": entry_t, "flags": ["-unwind", str(unwind), "-delays", str(dt)] + RUN_STUBS, "timeout_s": timeout_t,
@@ -133,11 +133,13 @@ PROPS = {    "C01": {
         "obligations": [
             run_ob("C05.stop", "VerifHarness_RUN_C05_n3", 0, "VerifHarness_RUN_C05_n3", 1, bq={"N": 3, "R": 1, "stop": "at quiescent points"}, bt={"N": 3, "R": 1, "stop": "at any yield point"},
                    must=["C05.nolaunch/no-step-command-starts-after-stop-accepted", "C05.stop/stopped-run-ends-canceled"]),
+            run_ob("C05.repeat", "VerifHarness_RUN_C05_rep", 0, None, None, unwind=12, bq={"N": 2, "repeating_step": "s0 (interval 0)", "iterations": "<= 10 (longer waits for the stop are cut)", "stop": "at quiescent points"},
+                   must=["C05.repeat/repeating-step-is-not-signalled", "C05.nolaunch/no-step-command-starts-after-stop-accepted"], extra=["-unwind-cut"]),
             run_ob("C05.stop-d1", "VerifHarness_RUN_C05_n2", 1, "VerifHarness_RUN_C05_n2h", 1, bq={"N": 2, "R": 1, "stop": "at any yield point"}, bt={"N": 2, "R": 1, "handlers": "every subset"},
                    must=["C05.nolaunch/no-step-command-starts-after-stop-accepted"]),
         ],
         "assumptions": ["every scripted process exits when it receives the stop signal or on its own (processes that ignore the signal: C05.escalate, not built)"] + RUN_ASSUME,
-        "outside_claim": COMMON_OUTSIDE + RUN_OUTSIDE + ["timeout expiry (C05.timeout) and force-kill escalation after MaxCleanUpTime (C05.escalate): not built yet", "repeating steps"],
+        "outside_claim": COMMON_OUTSIDE + RUN_OUTSIDE + ["timeout expiry (C05.timeout) and force-kill escalation after MaxCleanUpTime (C05.escalate): not built", "a stop racing with a repeating step's next iteration (pre-emption; same window as F5c)"],
     },
     "C15": {
         "obligations": [
